@@ -258,7 +258,7 @@ func (fs *LocalFS) startSerializer() {
 				// one-file-system is set, skip other filesystems
 				st, ok := info.Sys().(*syscall.Stat_t)
 				if ok && uint64(st.Dev) != fs.dev {
-					return nil
+					return filepath.SkipDir
 				}
 			}
 			fs.entries <- walkEntry{path, info, err}
